@@ -8,6 +8,8 @@ inverse pair), with every species attached to its own position, for EVERY iterat
 from __future__ import annotations
 
 import itertools
+import os
+import time
 
 import numpy as np
 import z3
@@ -707,3 +709,285 @@ for _fmt, _funcs in (("json", ["eminus.io.json:write_json", "eminus.io.json:read
     register(Obligation(name=f"C17.scf.save_load_continue[{_fmt}]", prop=PROP, engine="B", bounded=True, run=ScfRestart(_fmt), budget={"quick": 300, "thorough": 600},
                         functions=_funcs + ["eminus.scf:SCF.run"],
                         doc=f"BOUNDED: an SCF object saved as {_fmt} and loaded again reproduces energies bit for bit and continues identically (multi-k with ragged bases, smearing, GGA)"))
+
+
+# =================================================================================================
+# HDF5: lists of arrays with different shapes (one per k-point) - order-preserving for EVERY length
+# =================================================================================================
+
+
+class Hdf5RaggedList:
+    """VC generated from the ASTs of write_hdf5 / read_hdf5 (engine Z, special purpose): the group written for a list of N arrays and
+    the list restored from it agree element by element for EVERY N.
+
+    Model of the dependency (assumed contract 'h5py-group-map'): a Group is a finite map name -> payload; create_dataset(name, data=d) adds
+    name -> d; group[name] returns the payload; len(group) is the number of entries; ITERATING a group (items / values / keys) visits the
+    names in ascending LEXICOGRAPHIC order ('10' before '2'), which is not the insertion order - any reader that iterates is outside the
+    subset and falls back to the native replay. to_np / asarray / [()] are the identity on payloads. Python's str on non-negative
+    integers is injective ('str-injective').
+    Writer loop  `for I, V in enumerate(value): group.create_dataset(NAME(I), data=DATA(V))`     gives  G(NAME(i)) = DATA(list[i]), i < N,
+    provided NAME is injective on [0, N) (VC 1; otherwise a later dataset replaces an earlier one / h5py raises).
+    Reader       `[ELT(value[KEY(I)]) for I in range(len(value))]` then the tuple restoration     gives  out[i] = RESTORE(G(KEY(i))), i < len(G) = N.
+    VC 2: for all N, 0 <= i < N: RESTORE(ELT(G(KEY(i)))) == list[i] (pre-condition for '_active': every entry is a 1-tuple)."""
+
+    def find(self, tree):
+        import ast
+
+        w = next(n for n in ast.walk(tree) if isinstance(n, ast.FunctionDef) and n.name == "write_hdf5_recursively")
+        r = next(n for n in ast.walk(tree) if isinstance(n, ast.FunctionDef) and n.name == "read_hdf5_recursively")
+        loops = [n for n in ast.walk(w) if isinstance(n, ast.For) and isinstance(n.iter, ast.Call) and getattr(n.iter.func, "id", None) == "enumerate"
+                 and any(isinstance(c, ast.Call) and getattr(c.func, "attr", None) == "create_dataset" for c in ast.walk(n))]
+        if len(loops) != 1:
+            raise OutsideSubset(f"{len(loops)} enumerate loops creating datasets in write_hdf5_recursively")
+        loop = loops[0]
+        if not (isinstance(loop.target, ast.Tuple) and len(loop.target.elts) == 2 and all(isinstance(e, ast.Name) for e in loop.target.elts)):
+            raise OutsideSubset("writer loop target is not (index, value)")
+        if len(loop.body) != 1 or not isinstance(loop.body[0], ast.Expr) or not isinstance(loop.body[0].value, ast.Call):
+            raise OutsideSubset("writer loop body is not a single create_dataset call")
+        call = loop.body[0].value
+        if getattr(call.func, "attr", None) != "create_dataset" or len(call.args) != 1:
+            raise OutsideSubset("writer loop body is not group.create_dataset(name, data=...)")
+        data = next((k.value for k in call.keywords if k.arg == "data"), None)
+        if data is None:
+            raise OutsideSubset("create_dataset without data=")
+        # the attribute that tells the reader how to restore the entries
+        attr = None
+        for n in ast.walk(w):
+            if isinstance(n, ast.Assign) and isinstance(n.targets[0], ast.Subscript) and getattr(n.targets[0].value, "attr", None) == "attrs" \
+                    and isinstance(n.targets[0].slice, ast.Constant) and n.targets[0].slice.value == "list":
+                attr = n.value
+        if attr is None:
+            raise OutsideSubset("writer does not set the 'list' attribute")
+        # reader: the branch guarded by `"list" in value.attrs`
+        branch = None
+        for n in ast.walk(r):
+            if isinstance(n, ast.If) and any(isinstance(c, ast.Compare) and isinstance(c.left, ast.Constant) and c.left.value == "list" for c in ast.walk(n.test)):
+                branch = n
+                break
+        if branch is None:
+            raise OutsideSubset("reader has no branch for the 'list' attribute")
+        return dict(ivar=loop.target.elts[0].id, vvar=loop.target.elts[1].id, listvar=loop.iter.args[0], name=call.args[0], data=data, attr=attr, branch=branch)
+
+    def vc(self):
+        import ast
+
+        import z3
+
+        src = open(os.path.join(os.environ.get("EMINUS_REPO", "/repo"), "eminus", "extras", "hdf5.py")).read()
+        parts = self.find(ast.parse(src))
+        Val = z3.DeclareSort("Val")
+        Name = z3.DeclareSort("Name")
+        str_ = z3.Function("str", z3.IntSort(), Name)
+        first = z3.Function("first", Val, Val)  # x[0]
+        tup1 = z3.Function("tuple1", Val, Val)  # (x,)
+        lst = z3.Function("list", z3.IntSort(), Val)
+        G = z3.Function("G", Name, Val)
+        active = z3.Bool("key_is__active")
+        N = z3.Int("N")
+        a, b = z3.Ints("a b")
+        x = z3.Const("x", Val)
+        axioms = [z3.ForAll([a, b], z3.Implies(z3.And(a >= 0, b >= 0, str_(a) == str_(b)), a == b)),  # str-injective
+                  z3.ForAll([x], first(tup1(x)) == x)]
+
+        def tr(node, env):
+            """Expressions of the subset -> z3 (Int / Name / Val / Bool / python str constants)."""
+            if isinstance(node, ast.Name):
+                if node.id in env:
+                    return env[node.id]
+                raise OutsideSubset(f"free name {node.id}")
+            if isinstance(node, ast.Constant):
+                if isinstance(node.value, bool) or not isinstance(node.value, (int, str)) and node.value != ():
+                    raise OutsideSubset(f"constant {node.value!r}")
+                return node.value
+            if isinstance(node, ast.BinOp) and isinstance(node.op, (ast.Add, ast.Sub, ast.Mult)):
+                l, r_ = tr(node.left, env), tr(node.right, env)
+                if not all(isinstance(v, int) or (z3.is_expr(v) and v.sort() == z3.IntSort()) for v in (l, r_)):
+                    raise OutsideSubset("arithmetic on non-integers")
+                return {ast.Add: lambda: l + r_, ast.Sub: lambda: l - r_, ast.Mult: lambda: l * r_}[type(node.op)]()
+            if isinstance(node, ast.Call) and isinstance(node.func, ast.Name) and node.func.id == "str" and len(node.args) == 1:
+                v = tr(node.args[0], env)
+                return str_(v if z3.is_expr(v) else z3.IntVal(v))
+            if isinstance(node, ast.JoinedStr) and len(node.values) == 1 and isinstance(node.values[0], ast.FormattedValue) \
+                    and node.values[0].format_spec is None and node.values[0].conversion == -1:
+                v = tr(node.values[0].value, env)
+                if z3.is_expr(v) and v.sort() == z3.IntSort():
+                    return str_(v)
+                raise OutsideSubset("f-string of a non-integer")
+            if isinstance(node, ast.Call) and isinstance(node.func, ast.Attribute) and node.func.attr in ("to_np", "asarray") and len(node.args) == 1 and not node.keywords:
+                return tr(node.args[0], env)  # identity on payloads
+            if isinstance(node, ast.Subscript):
+                base = tr(node.value, env)
+                if isinstance(node.slice, ast.Tuple) and not node.slice.elts:  # x[()]
+                    return base
+                if isinstance(base, tuple) and base[0] == "group":
+                    k = tr(node.slice, env)
+                    if not (z3.is_expr(k) and k.sort() == Name):
+                        raise OutsideSubset("group indexed by something that is not a dataset name")
+                    return G(k)
+                if isinstance(base, tuple) and base[0] == "attrs":
+                    if tr(node.slice, env) == "list":
+                        return ("attr-list",)
+                    raise OutsideSubset("other attribute")
+                if z3.is_expr(base) and base.sort() == Val and isinstance(node.slice, ast.Constant) and node.slice.value == 0:
+                    return first(base)
+                raise OutsideSubset(f"subscript {ast.unparse(node)}")
+            if isinstance(node, ast.Attribute) and node.attr == "attrs" and isinstance(tr(node.value, env), tuple):
+                return ("attrs",)
+            if isinstance(node, ast.Tuple) and len(node.elts) == 1:
+                v = tr(node.elts[0], env)
+                if z3.is_expr(v) and v.sort() == Val:
+                    return tup1(v)
+                raise OutsideSubset("tuple of a non-payload")
+            if isinstance(node, ast.Compare) and len(node.ops) == 1 and isinstance(node.ops[0], ast.Eq):
+                l, r_ = tr(node.left, env), tr(node.comparators[0], env)
+                if l == ("key",) and r_ == "_active":
+                    return active
+                if l == ("attr-list",) and isinstance(r_, str):
+                    return ("attr-is", r_)
+                raise OutsideSubset(f"comparison {ast.unparse(node)}")
+            if isinstance(node, ast.IfExp):
+                c, t, e = tr(node.test, env), tr(node.body, env), tr(node.orelse, env)
+                if isinstance(c, tuple) and c[0] == "attr-is":
+                    c = env["__attr_is"](c[1])
+                if isinstance(t, str) and isinstance(e, str):
+                    return ("ifstr", c, t, e)
+                return z3.If(c, t, e)
+            raise OutsideSubset(f"expression {ast.unparse(node)}")
+
+        i = z3.Int("i")
+        j = z3.Int("j")
+        wenv = {parts["ivar"]: i, parts["vvar"]: lst(i), "key": ("key",)}
+        name_i = tr(parts["name"], wenv)
+        data_i = tr(parts["data"], wenv)
+        if not (z3.is_expr(name_i) and name_i.sort() == Name):
+            raise OutsideSubset("dataset name is not str(index)")
+        name_j = z3.substitute(name_i, (i, j))
+        attr = tr(parts["attr"], {"key": ("key",)})
+        if not (isinstance(attr, tuple) and attr[0] == "ifstr"):
+            raise OutsideSubset("the 'list' attribute is not a conditional string")
+        _, acond, astr_t, astr_e = attr
+
+        def attr_is(s):  # value.attrs["list"] == s
+            return z3.If(acond, z3.BoolVal(astr_t == s), z3.BoolVal(astr_e == s))
+
+        vcs = {}
+        # VC 1: dataset names are pairwise different
+        vcs["names_injective"] = z3.And(axioms + [0 <= i, i < j, j < N, name_i == name_j])
+        # group content after the loop (map-building lemma, valid under VC 1)
+        group_ax = z3.ForAll([i], z3.Implies(z3.And(0 <= i, i < N), G(name_i) == data_i))
+        # reader
+        br = parts["branch"]
+        comp = None
+        restored = None
+        env = {"value": ("group",), "__attr_is": attr_is}
+        for st in br.body:
+            if isinstance(st, ast.Assign) and isinstance(st.value, ast.ListComp) and isinstance(st.targets[0], ast.Name):
+                lc = st.value
+                g = lc.generators[0]
+                if len(lc.generators) != 1 or g.ifs or not (isinstance(g.iter, ast.Call) and getattr(g.iter.func, "id", None) == "range" and len(g.iter.args) == 1
+                                                               and ast.unparse(g.iter.args[0]) == "len(value)") or not isinstance(g.target, ast.Name):
+                    raise OutsideSubset(f"reader builds the list by `{ast.unparse(lc)}`: not an index loop over range(len(value)) "
+                                        "(iterating a Group visits the names in lexicographic order)")
+                k = z3.Int("k")
+                comp = (st.targets[0].id, k, tr(lc.elt, {**env, g.target.id: k}))
+            elif isinstance(st, ast.If) and comp is not None:
+                c = tr(st.test, env)
+                c = attr_is(c[1]) if isinstance(c, tuple) and c[0] == "attr-is" else c
+
+                def branch_val(body):
+                    if len(body) != 1 or not isinstance(body[0], ast.Assign):
+                        raise OutsideSubset("restoration branch is not a single assignment")
+                    v = body[0].value
+                    if isinstance(v, ast.Name) and v.id == comp[0]:
+                        return comp[2]
+                    if isinstance(v, ast.ListComp) and len(v.generators) == 1 and isinstance(v.generators[0].iter, ast.Name) and v.generators[0].iter.id == comp[0] \
+                            and not v.generators[0].ifs and isinstance(v.generators[0].target, ast.Name):
+                        return tr(v.elt, {**env, v.generators[0].target.id: comp[2]})
+                    raise OutsideSubset(f"restoration `{ast.unparse(v)}`")
+
+                restored = z3.If(c, branch_val(st.body), branch_val(st.orelse))
+        if comp is None or restored is None:
+            raise OutsideSubset("reader branch does not have the shape  arrays = [...]; if attrs['list'] == ...: ... else: ...")
+        k = comp[1]
+        pre = z3.ForAll([a], z3.Implies(active, lst(a) == tup1(first(lst(a)))))  # '_active' entries are 1-tuples (np.nonzero of a 1-D mask)
+        vcs["roundtrip_elementwise"] = z3.And(axioms + [group_ax, pre, 0 <= k, k < N, restored != lst(k)])
+        # ground instances of the quantified premises (only used to look for a candidate counter-model when z3 answers `unknown`;
+        # a candidate counts only if the native replay reproduces it)
+        inst = [z3.substitute(z3.Implies(z3.And(0 <= i, i < N), G(name_i) == data_i), (i, t)) for t in (k - 1, k, k + 1)]
+        inst += [z3.Implies(active, lst(t) == tup1(first(lst(t)))) for t in (k - 1, k, k + 1)]
+        inst += [z3.Implies(z3.And(t1 >= 0, t2 >= 0, str_(t1) == str_(t2)), t1 == t2) for t1 in (k - 1, k, k + 1) for t2 in (k - 1, k, k + 1)]
+        inst += [first(tup1(first(lst(t)))) == first(lst(t)) for t in (k - 1, k, k + 1)]
+        self.ground = {"roundtrip_elementwise": z3.And(inst + [0 <= k, k < N, restored != lst(k)])}
+        return vcs
+
+    def __call__(self, ob, tier, seed):
+        import z3
+
+        try:
+            vcs = self.vc()
+        except OutsideSubset as e:
+            ok, info = self.replay({})
+            if ok:
+                return Result(REFUTED, backend="native", witness=dict(Nk=12), replayed=True, replay_info=info,
+                              detail=f"HDF5 round trip of per-k-point lists differs natively ({e})")
+            return Result(UNDECIDED, backend="engine-Z", detail=f"outside subset: {e}")
+        t0 = time.time()
+        for name, f in vcs.items():
+            s = z3.Solver()
+            s.set("timeout", 8000)
+            s.add(f)
+            r = s.check()
+            if r == z3.sat:
+                ok, info = self.replay({})
+                return Result(REFUTED if ok else UNDECIDED, backend="z3", witness=dict(vc=name, model=str(s.model())[:800]), replayed=ok, replay_info=info,
+                              solver_output=str(s.model())[:1500], detail=f"{ob.name}: VC {name} has a counter-model")
+            if r != z3.unsat:
+                g = getattr(self, "ground", {}).get(name)
+                if g is not None:
+                    s2 = z3.Solver()
+                    s2.set("timeout", 20000)
+                    s2.add(g)
+                    if s2.check() == z3.sat:
+                        ok, info = self.replay({})
+                        if ok:
+                            return Result(REFUTED, backend="z3", witness=dict(vc=name, candidate_model=str(s2.model())[:800]), replayed=True, replay_info=info,
+                                          solver_output=str(s2.model())[:1500], detail=f"{ob.name}: VC {name} has a candidate counter-model (ground instances) that the native round trip reproduces")
+                return Result(UNDECIDED, backend="z3", detail=f"VC {name}: {r}")
+        return Result(DISCHARGED, backend="z3", stats=dict(vcs=len(vcs), solver_time=round(time.time() - t0, 3)))
+
+    def replay(self, wit):
+        """Atoms with 12 k-points of different basis sizes, written and read back."""
+        import tempfile
+
+        try:
+            import h5py  # noqa: F401
+        except ImportError:
+            return None, dict(note="h5py is not importable")
+        import eminus
+        from eminus import Atoms
+        from eminus.io import read, write
+
+        eminus.config.backend = "numpy"
+        eminus.config.verbose = "critical"
+        at = Atoms("Si", [[0.0, 0.0, 0.0]], ecut=5, a=[[0.0, 5.13, 5.13], [5.13, 0.0, 5.13], [5.13, 5.13, 0.0]])
+        at.kpts.kmesh = [3, 2, 2]
+        at.build()
+        with tempfile.TemporaryDirectory() as d:
+            fn = os.path.join(d, "atoms.hdf5")
+            try:
+                write(at, fn)
+                at2 = read(fn)
+            except Exception as e:  # noqa: BLE001
+                return True, dict(raised=f"{type(e).__name__}: {e}")
+        bad = []
+        for ik in range(at.kpts.Nk):
+            if not np.array_equal(np.asarray(at._active[ik][0]), np.asarray(at2._active[ik][0])):
+                bad.append(f"_active[{ik}]")
+            if not np.array_equal(np.asarray(at._Gk2c[ik]), np.asarray(at2._Gk2c[ik])):
+                bad.append(f"_Gk2c[{ik}]")
+        return bool(bad), dict(Nk=int(at.kpts.Nk), basis_sizes=[int(len(g)) for g in at._Gk2c], differing=bad[:8])
+
+
+register(Obligation(name="C17.hdf5.per_k_lists_roundtrip_any_length", prop=PROP, engine="Z", functions=["eminus.extras.hdf5:write_hdf5", "eminus.extras.hdf5:read_hdf5"],
+                    run=Hdf5RaggedList(), assumes=("h5py-group-map", "str-injective"),
+                    doc="HDF5: a list of N arrays of different shapes (per-k-point data, '_active' tuples) is restored element by element in the stored order, for every N"))
